@@ -1624,37 +1624,83 @@ func (c *Ctx) encodeTotality(r *Report, prefix string) {
 						}
 						s.Rel = func(f *FA) []Fact {
 							// every proposal lists at least one transform: the five lists together are not empty
-							sum := konst(-1)
-							n := 0
+							// (one fact per proposal object the function reads; a field read several times is one
+							// value per load class)
+							type perBase struct {
+								lens map[string][]LF
+							}
+							bases := map[ssa.Value]*perBase{}
+							var order []ssa.Value
 							for _, b := range f.Fn.Blocks {
 								for _, ins := range b.Instrs {
 									v, ok := ins.(ssa.Value)
 									if !ok {
 										continue
 									}
-									if _, isLoad := v.(*ssa.UnOp); !isLoad {
+									ld, isLoad := v.(*ssa.UnOp)
+									if !isLoad {
 										continue
 									}
 									if fk, ok := fieldKeyOfLoad(v); ok {
 										switch fk {
 										case "message.Proposal.EncryptionAlgorithm", "message.Proposal.PseudorandomFunction", "message.Proposal.IntegrityAlgorithm", "message.Proposal.DiffieHellmanGroup", "message.Proposal.ExtendedSequenceNumbers":
-											sum = sum.add(f.SliceLen(v), 1)
-											n++
+											var base ssa.Value
+											if fa, ok := ld.X.(*ssa.FieldAddr); ok {
+												base = fa.X
+											}
+											pb := bases[base]
+											if pb == nil {
+												pb = &perBase{lens: map[string][]LF{}}
+												bases[base] = pb
+												order = append(order, base)
+											}
+											l := f.SliceLen(v)
+											dup := false
+											for _, o := range pb.lens[fk] {
+												if o.key() == l.key() {
+													dup = true
+												}
+											}
+											if !dup {
+												pb.lens[fk] = append(pb.lens[fk], l)
+											}
 										}
 									}
 								}
 							}
-							if n != 5 {
-								return nil
+							var out []Fact
+							for _, base := range order {
+								pb := bases[base]
+								if len(pb.lens) != 5 {
+									continue
+								}
+								var fields []string
+								for k := range pb.lens {
+									fields = append(fields, k)
+								}
+								sort.Strings(fields)
+								// the combination of first loads, and each later load of a field in place of its first
+								first := konst(-1)
+								for _, k := range fields {
+									first = first.add(pb.lens[k][0], 1)
+								}
+								out = append(out, Fact{L: first})
+								for _, k := range fields {
+									for _, alt := range pb.lens[k][1:] {
+										out = append(out, Fact{L: first.add(pb.lens[k][0], -1).add(alt, 1)})
+									}
+								}
 							}
-							return []Fact{{L: sum}}
+							return out
 						}
 					})
 				}
 			case "message.Delete":
-				add(m, "", func(s *domSpec) {
-					s.Rel = func(f *FA) []Fact {
-						var ls, nv *LF
+				// C03's quantifier: "Delete is either (SPI size 0, no SPIs) or (SPI size 4, count = number of SPIs)",
+				// and every payload fits the 16-bit payload length (4 + 4 + 4*count <= 65535): one root per case
+				deleteFacts := func(withSPIs bool) func(f *FA) []Fact {
+					return func(f *FA) []Fact {
+						var ls, nv, sz *LF
 						for _, b := range f.Fn.Blocks {
 							for _, ins := range b.Instrs {
 								v, ok := ins.(ssa.Value)
@@ -1670,16 +1716,47 @@ func (c *Ctx) encodeTotality(r *Report, prefix string) {
 										l := f.LFOf(v)
 										nv = &l
 									}
+									if fk == "message.Delete.SPISize" && sz == nil {
+										l := f.LFOf(v)
+										sz = &l
+									}
 								}
 							}
 						}
-						if ls == nil || nv == nil {
-							return nil
+						var out []Fact
+						eq := func(l LF, k int64) {
+							out = append(out, Fact{L: l.add(konst(k), -1)}, Fact{L: konst(k).add(l, -1)})
 						}
-						d := ls.add(*nv, -1)
-						return []Fact{{L: d}, {L: d.scale(-1)}}
+						if ls != nil && nv != nil {
+							d := ls.add(*nv, -1)
+							out = append(out, Fact{L: d}, Fact{L: d.scale(-1)})
+						}
+						if ls != nil {
+							if withSPIs {
+								out = append(out, Fact{L: ls.add(konst(1), -1)}, Fact{L: konst(16381).add(*ls, -1)})
+							} else {
+								eq(*ls, 0)
+							}
+						}
+						if nv != nil {
+							if withSPIs {
+								out = append(out, Fact{L: nv.add(konst(1), -1)}, Fact{L: konst(16381).add(*nv, -1)})
+							} else {
+								eq(*nv, 0)
+							}
+						}
+						if sz != nil {
+							if withSPIs {
+								eq(*sz, 4)
+							} else {
+								eq(*sz, 0)
+							}
+						}
+						return out
 					}
-				})
+				}
+				add(m, "Delete without SPIs (SPI size 0)", func(s *domSpec) { s.Rel = deleteFacts(false) })
+				add(m, "Delete with 4-octet SPIs", func(s *domSpec) { s.Rel = deleteFacts(true) })
 			default:
 				add(m, "", nil)
 			}
